@@ -28,7 +28,7 @@ PROFILES = {
                  cancel_ready=3, creating=4, activate=2, jp_schedule=2, tick=1),
     'groups': dict(batch=1, submit=6, late_child=2, update=4, groups=4, jobs=4, commit=5, cancel=4, delete=1, instance=1, schedule=5, complete=8,
                    sched_loop=4, cancel_ready=4, cancel_running=1, tick=1),
-    'cancel': dict(batch=1, submit=6, late_child=2, update=3, groups=4, jobs=4, commit=4, cancel=9, instance=2, schedule=6, schedule_any=2, creating=3,
+    'cancel': dict(batch=3, submit=6, late_child=2, update=3, groups=4, jobs=4, commit=4, cancel=9, instance=2, schedule=6, schedule_any=2, creating=3,
                    activate=2, jp_schedule=3,
                    started=4, complete=5, sched_loop=5, cancel_ready=3, cancel_creating=2, cancel_running=3, cleanup_cancellable=2,
                    tick=1),
@@ -114,6 +114,9 @@ def strategies(profile, max_ops=40):
             return st.tuples(st.just('unschedule'), st.integers(0, 12), st.sampled_from([False, True])).map(list)
         if kind == 'sched_loop':
             return st.tuples(st.just('sched_loop'), st.sampled_from([0, 0, 0, 1])).map(list)
+        if kind in ('cancel_ready', 'cancel_running'):
+            # busy > 0: the driver's shared worker pool is occupied for that many loop steps when the canceller queues its calls
+            return st.tuples(st.just(kind), st.sampled_from([0, 0, 3, 12])).map(list)
         if kind == 'cancel_creating_crash':
             return st.just(['cancel_creating', True])
         if kind == 'tick':
@@ -140,7 +143,8 @@ def strategies(profile, max_ops=40):
         par_op = st.one_of(par_op, aimed, aimed, aimed)
     op = st.one_of(*([seq_op] * (12 - PAR.get(profile, 1)) + [par_op] * PAR.get(profile, 1)))
     prefix = [['instance', 0, True], ['batch', 0, 0]]
-    cfg = st.fixed_dictionaries({'n_tokens': st.sampled_from([1, 2, 5]), 'draws': st.lists(st.integers(0, 15), min_size=1, max_size=8)})
+    cfg = st.fixed_dictionaries({'n_tokens': st.sampled_from([1, 2, 5]), 'draws': st.lists(st.integers(0, 15), min_size=1, max_size=8)},
+                                optional={'pool_par': st.sampled_from([1, 1, 2])})      # the driver's shared worker pool: saturated or roomy
     first = st.tuples(st.sampled_from(['submit', 'update', 'update'] if profile == 'uncommitted' else ['submit', 'submit', 'update']),
                       st.just(0), groups, jobs).map(list)
     free = st.builds(lambda c, f, ops: {'cfg': c, 'ops': prefix + [f] + ops}, cfg, first, st.lists(op, min_size=8, max_size=max_ops))
@@ -321,6 +325,8 @@ def run_case(case, step_oracle, *, final_oracle=None, nontrivial=None, extra_cla
 
     async def go():
         kw = dict(n_tokens=cfg.get('n_tokens', 2), seed_draws=cfg.get('draws') or [0])
+        if cfg.get('pool_par'):
+            kw['pool_par'] = cfg['pool_par']
         if guarded:
             # an "unguarded" case lifts only the guards of findings listed for THIS property (so that it re-finds them);
             # findings that belong to other properties stay excluded by construction
